@@ -42,13 +42,22 @@ pub const OPS: &[&str] = &[
 ];
 
 fn list_text(n: usize, dotted: bool) -> String {
-    let mut s = String::with_capacity(n * 8);
+    let mut s = String::with_capacity(n * 10);
     s.push('(');
+    let kind = ELEMS[ELEM.with(|e| e.get())];
     for i in 0..n {
         if i > 0 {
             s.push(' ');
         }
-        s.push_str(&(i % 1000).to_string());
+        match kind {
+            "nil" => s.push_str("#nil"),
+            "null" => s.push_str("()"),
+            "string" => s.push_str(&format!("\"s{}\"", i % 1000)),
+            "pair" => s.push_str(&format!("({} . x)", i % 1000)),
+            "quoted" => s.push_str("'a"),
+            "vector" => s.push_str("#(1)"),
+            _ => s.push_str(&(i % 1000).to_string()),
+        }
     }
     if dotted {
         s.push_str(" . t");
@@ -57,7 +66,7 @@ fn list_text(n: usize, dotted: bool) -> String {
     s
 }
 
-pub const ELEMS: &[&str] = &["int", "nil", "null", "string", "pair"];
+pub const ELEMS: &[&str] = &["int", "nil", "null", "string", "pair", "quoted", "vector"];
 
 thread_local! {
     static ELEM: std::cell::Cell<usize> = std::cell::Cell::new(0);
@@ -71,6 +80,8 @@ fn elem_value(i: usize) -> Value {
         "null" => Value::Null,
         "string" => Value::string(format!("s{}", i % 1000)),
         "pair" => Value::cons(Value::from((i % 1000) as u32), Value::symbol("x")),
+        "quoted" => Value::list(vec![Value::symbol("quote"), Value::symbol("a")]),
+        "vector" => Value::vector(vec![Value::from(1u32)]),
         _ => Value::from((i % 1000) as u32),
     }
 }
@@ -534,7 +545,7 @@ pub fn sets(ctx: &Ctx) -> Vec<CaseSet> {
         }),
     ));
     // clone / == / drop / consuming iteration over lists of other element kinds
-    const KIND_OPS: &[&str] = &["clone", "eq", "eq-all-different", "drop", "into_iter", "cons-into_vec", "print-to_string"];
+    const KIND_OPS: &[&str] = &["clone", "eq", "eq-all-different", "drop", "into_iter", "cons-into_vec", "print-to_string", "datum-reader", "datum-drop", "datum-walk", "datum-into-value", "parse-str", "drop-parsed"];
     let nk = (ELEMS.len() - 1) * KIND_OPS.len();
     out.push(CaseSet::new(
         "element-kinds",
